@@ -72,10 +72,102 @@ package lexer
 //@   model saved(i int) := tl.pointers[i]
 //
 // ---- Lexer -------------------------------------------------------------------------------------
-//@ func (*Lexer).Next [C14,C06] trusted
-//@   requires l != nil
+// Character classes, from the Readme / operator tables.
+//@ pred isBlank(c rune) bool := c == ' ' || c == '\t'
+//@ pred isDigit(c rune) bool := '0' <= c && c <= '9'
+//@ pred isLower(c rune) bool := 'a' <= c && c <= 'z'
+//@ pred isSticky(c rune) bool := c == '+' || c == '*' || c == '/' || c == '=' || c == '<' || c == '>' || c == '!' || c == '-' || c == '&' || c == '|' || c == '#' || c == '%' || c == '~'
+//@ pred isNotSticky(c rune) bool := c == '(' || c == ')' || c == '{' || c == '}' || c == '[' || c == ']' || c == ',' || c == ':'
+//@ pred classified(c rune) bool := isBlank(c) || c == ';' || c == '\n' || c == EOF || isDigit(c) || isLower(c) || c == '"' || isNotSticky(c) || isSticky(c)
+// The state in which a lexeme beginning with c starts.
+//@ pred startOf(c rune) int := ite(isBlank(c), fnid(whiteSpace), ite(c == ';', fnid(comment), ite(c == '\n', fnid(eol), ite(c == EOF, fnid(eof),
+//@     ite(isDigit(c), fnid(intLit), ite(isLower(c), fnid(varName), ite(c == '"', fnid(stringLit), ite(isNotSticky(c), fnid(notSticky), fnid(sticky)))))))))
+//@ pred isState(f stateFunc) bool := fnid(f) == fnid(whiteSpace) || fnid(f) == fnid(comment) || fnid(f) == fnid(intLit) || fnid(f) == fnid(floatLit)
+//@     || fnid(f) == fnid(varName) || fnid(f) == fnid(stringLit) || fnid(f) == fnid(escapeStringLit) || fnid(f) == fnid(stringLitEnd)
+//@     || fnid(f) == fnid(notSticky) || fnid(f) == fnid(sticky) || fnid(f) == fnid(eol) || fnid(f) == fnid(eof)
+// Lexeme families: states that extend the same lexeme.
+//@ pred family(f stateFunc) int := ite(fnid(f) == fnid(intLit) || fnid(f) == fnid(floatLit), 1, ite(fnid(f) == fnid(varName), 2,
+//@     ite(fnid(f) == fnid(stringLit) || fnid(f) == fnid(escapeStringLit) || fnid(f) == fnid(stringLitEnd), 3, ite(fnid(f) == fnid(comment), 4,
+//@     ite(fnid(f) == fnid(sticky), 5, ite(fnid(f) == fnid(notSticky), 6, ite(fnid(f) == fnid(eol), 7, ite(fnid(f) == fnid(whiteSpace), 8, 9))))))))
+//@ pred firstOK(fam int, ch int) bool := ite(fam == 1, '0' <= ch && ch <= '9', ite(fam == 2, 'a' <= ch && ch <= 'z', ite(fam == 3, ch == '"', ite(fam == 4, ch == ';',
+//@     ite(fam == 5, isSticky(rune(ch)), ite(fam == 6, isNotSticky(rune(ch)), ite(fam == 7, ch == '\n', ite(fam == 8, ch == ' ' || ch == '\t', false))))))))
+//@ pred kindOf(f stateFunc) token.Kind := ite(fnid(f) == fnid(intLit), token.IntLit, ite(fnid(f) == fnid(floatLit), token.FloatLit, ite(fnid(f) == fnid(varName), token.Name,
+//@     ite(fnid(f) == fnid(stringLitEnd), token.StringLit, ite(fnid(f) == fnid(notSticky), token.NotSticky, ite(fnid(f) == fnid(sticky), token.Sticky, ite(fnid(f) == fnid(eol), token.EOL, token.Invalid)))))))
+// A lexeme in state f is extended (not ended) by c.
+//@ pred continues(f stateFunc, c rune) bool := (fnid(f) == fnid(intLit) && (isDigit(c) || c == '.')) || (fnid(f) == fnid(floatLit) && isDigit(c))
+//@     || (fnid(f) == fnid(varName) && isLower(c)) || (fnid(f) == fnid(sticky) && isSticky(c))
+//
+//@ func newSTR [C14,C06]
+//@   ensures[classified]   classified(c) ==> result.err == nil && fnid(result.next) == startOf(c) && result.doEmit == emit && result.doAdv == adv && result.typ == typ
+//@   ensures[unclassified] !classified(c) ==> result.err != nil
+//
+// Type-level contract of a lexer state; every state function is proved against it.
+//@ type stateFunc [C14,C06]
+//@   params self, c
+//@   requires isState(self) && fnid(self) != fnid(eof)
+//@   ensures[next_state] result.err == nil ==> isState(result.next)
+//@   ensures[boundary]   result.err == nil && (result.doEmit || result.doAdv) ==> fnid(result.next) == startOf(c)
+//@   ensures[extends]    result.err == nil && !result.doEmit && !result.doAdv ==> family(result.next) == family(self) && c != EOF
+//@   ensures[emit_kind]  result.err == nil && result.doEmit ==> result.typ == kindOf(self) && !result.doAdv && family(self) != 8 && family(self) != 4
+//@   ensures[adv]        result.err == nil && result.doAdv ==> family(self) == 8 || family(self) == 4
+//@   ensures[maximal]    result.err == nil && result.doEmit ==> !continues(self, c)
+//@   ensures[string_open] result.err == nil && result.doEmit && family(self) == 3 ==> fnid(self) == fnid(stringLitEnd)
+//
+//@ func whiteSpace [C14,C06] implements stateFunc
+//@ func comment [C14,C06] implements stateFunc
+//@ func intLit [C14,C06] implements stateFunc
+//@ func floatLit [C14,C06] implements stateFunc
+//@ func varName [C14,C06] implements stateFunc
+//@ func stringLit [C14,C06] implements stateFunc
+//@ func escapeStringLit [C14,C06] implements stateFunc
+//@ func stringLitEnd [C14,C06] implements stateFunc
+//@ func notSticky [C14,C06] implements stateFunc
+//@ func sticky [C14,C06] implements stateFunc
+//@ func eol [C14,C06] implements stateFunc
+//
+// Representation invariant of the scanner: the current lexeme is input[from:to], the reader is at
+// or past `to`, the lexeme begins with a character of the current state's family, and the end
+// state is only reached with the whole input consumed.
+//@ pred lbase(l *Lexer) bool := l != nil && 0 <= l.from && l.from <= l.to && l.to <= len(l.input)
+//@     && rdstr(l) == l.input && l.to <= rdpos(l) && rdpos(l) <= len(l.input)
+//@ pred lstate(l *Lexer, st stateFunc) bool := isState(st)
+//@     && (fnid(st) == fnid(eof) ==> l.from == len(l.input) && l.to == len(l.input))
+// Faithfulness facts hold as long as no lexer error has been reported (the property speaks of accepted inputs).
+//@ pred lfirst(l *Lexer, st stateFunc) bool := l.from < l.to ==> firstOK(family(st), strat(l.input, l.from))
+//@ pred leof(l *Lexer) bool := l.eof ==> l.from == len(l.input) && l.to == len(l.input)
+//@ pred lwf(l *Lexer) bool := lbase(l) && lstate(l, l.state) && leof(l) && (l.Err == nil ==> synced(l) && lfirst(l, l.state))
+//@ pred rdpos(l *Lexer) int := int(field[int64](l.rdr, "i"))
+//@ pred rdstr(l *Lexer) string := field[string](l.rdr, "s")
+//@ pred synced_after(l *Lexer, n int) bool := rdpos(l) == l.to + n
+//@ pred synced(l *Lexer) bool := rdpos(l) == l.to
+//
+//@ func (*Lexer).nextRune [C14,C06]
+//@   requires lbase(l)
+//@   modifies l.rdr
+//@   ensures[base]    lbase(l) && l.from == old(l.from) && l.to == old(l.to) && l.input == old(l.input)
+//@   ensures[at_end]  old(l.to) >= len(l.input) ==> result0 == EOF && result1 == 0 && result2 == nil && eqv(l.rdr, old(l.rdr))
+//@   ensures[read]    old(l.to) < len(l.input) && result2 == nil ==> 1 <= result1 && result1 <= 4 && rdpos(l) == old(rdpos(l)) + result1 && rdstr(l) == old(rdstr(l))
+//@       && (old(synced(l)) ==> synced_after(l, result1) && ((result0 < 128) == (strat(l.input, l.to) < 128)) && (result0 < 128 ==> result1 == 1 && int(result0) == strat(l.input, l.to)))
+//@   ensures[error]   result2 != nil ==> eqv(l.rdr, old(l.rdr)) && old(l.to) < len(l.input) && rdpos(l) >= len(l.input)
+//
+//@ func (*Lexer).Next [C14,C06]
+//@   requires lwf(l)
 //@   modifies *l
-//@   ensures[false_means_done] !result ==> old(l.eof) && l.eof
+//@   ensures[inv_base]  lbase(l) && l.input == old(l.input)
+//@   ensures[inv_state] lstate(l, l.state)
+//@   ensures[inv_eof]   leof(l)
+//@   ensures[inv_first] l.Err == nil ==> synced(l) && lfirst(l, l.state)
+//@   ensures[false_means_done] !result ==> (old(l.eof) && l.eof) || l.Err != nil
+//@   ensures[monotone] l.from >= old(l.from) && l.to >= old(l.to)
+//@   loop 0 invariant[base]  lbase(l) && l.input == old(l.input) && l.from >= old(l.from) && l.to >= old(l.to) && l.eof == old(l.eof) && eqv(l.Token, old(l.Token))
+//@   loop 0 invariant[state] lstate(l, st) && isState(l.state)
+//@   loop 0 invariant[eof]   leof(l) && l.Err == old(l.Err)
+//@   loop 0 invariant[first] old(l.Err) == nil ==> lfirst(l, st)
+//@   loop 0 invariant[sync]  old(l.Err) == nil ==> synced(l)
+//@   loop 0 decreases 2 * (len(l.input) - l.to) + ite(l.from < l.to, 1, 0)
+//
+//@ func NewLexer [C14,C06]
+//@   ensures[init] result.input == input && result.from == 0 && result.to == 0 && fnid(result.state) == fnid(whiteSpace) && !result.eof && field[string](result.rdr, "s") == input && field[int64](result.rdr, "i") == 0
 //
 //@ canary func (*TLexer).From
 //@   ensures false
